@@ -106,6 +106,17 @@ ShapeCat == {E("weight", <<v, "arbitrary-data-filler", "">>, x) : v \in {1, 2}, 
             {E("header", <<0, "ParentID", "">>, x) : x \in {"zero", "own-id"}} \cup
             {E("payouts", <<0, "MinerPayouts", "">>, x) : x \in {"none", "two-halves", "1000-entries", "zero-value", "extra-zero-entry", "void-address"}}
 
+\* ---- an id of the wrong kind: a v1 transaction appended to the block whose parent id is the id of an element of ANOTHER kind
+\* that an earlier transaction of the same block created (ids of all kinds share one 32-byte space) ---------------------------------
+ConfuseCat == {E("confuse", <<1, t, "">>, x) : t \in {"rev", "res", "sci", "sfi"}, x \in {"siacoin-output", "siafund-output", "contract"}}
+              \ {E("confuse", <<1, "sci", "">>, "siacoin-output"), E("confuse", <<1, "sfi", "">>, "siafund-output"),
+                 E("confuse", <<1, "rev", "">>, "contract"), E("confuse", <<1, "res", "">>, "contract")}
+
+\* ---- life cycle: a contract FORMED with an extreme file size (a valid formation), then storage proofs of every length for it
+\* once its window is open, then its end (expiration); ver 1 and 2 ------------------------------------------------------------
+LifecycleCat == {[fam |-> "lifecycle", ver |-> v, t |-> "filesize", need |-> "", x |-> s, t2 |-> "proof-length", need2 |-> "", x2 |-> l] :
+                    v \in {1, 2}, s \in {"65", "2^63", "2^63+64", "2^64-1"}, l \in {"0", "1", "2", "57", "58", "59", "63", "64", "65", "200"}}
+
 \* ---- transactions as a JSON decoder hands them over: members the wire never leaves empty are nil / zero here ---------
 DecodedCat == {E("decoded", <<2, "json", "">>, x) : x \in {"{\"siacoinInputs\":[{}]}", "{\"siafundInputs\":[{}]}", "{\"fileContractResolutions\":[null]}", "{\"fileContractRevisions\":[{}]}",
                    "{\"fileContracts\":[{}]}", "{\"attestations\":[{}]}", "{\"siacoinOutputs\":[{}]}", "{\"minerFee\":\"1\"}", "{\"siacoinInputs\":[{\"satisfiedPolicy\":{}}]}",
@@ -113,7 +124,7 @@ DecodedCat == {E("decoded", <<2, "json", "">>, x) : x \in {"{\"siacoinInputs\":[
               {E("decoded", <<1, "json", "">>, x) : x \in {"{\"siacoinInputs\":[{}]}", "{\"siafundInputs\":[{}]}", "{\"signatures\":[{}]}", "{\"fileContractRevisions\":[{}]}", "{\"storageProofs\":[{}]}",
                    "{\"fileContracts\":[{}]}", "{\"minerFees\":[\"0\"]}", "{\"arbitraryData\":[null]}", "{\"signatures\":[{\"coveredFields\":{\"signatures\":[0,0,1]}}]}"}}
 
-Catalogue == DecodedCat \cup CurSingles \cup CurPairs \cup ProofCat \cup CoveredCat \cup SigCat \cup ParentCat \cup SuppCat \cup PolicyCat \cup ResCat \cup EraCat \cup SizeCat \cup WinCat \cup ShapeCat
+Catalogue == LifecycleCat \cup ConfuseCat \cup DecodedCat \cup CurSingles \cup CurPairs \cup ProofCat \cup CoveredCat \cup SigCat \cup ParentCat \cup SuppCat \cup PolicyCat \cup ResCat \cup EraCat \cup SizeCat \cup WinCat \cup ShapeCat
 Families == {e.fam : e \in Catalogue}
 
 VARIABLE step
@@ -126,5 +137,5 @@ Spec == Init /\ [][Next]_step
 \* every entry is well formed: a known version, a member, an extreme; exactly the pair entries name a second member and extreme
 ASSUME WellFormed == \A e \in Catalogue : /\ e.ver \in {0, 1, 2} /\ e.t # "" /\ e.x # ""
                                    /\ (e.fam = "cur2" => e.t2 # "" /\ e.x2 # "")
-                                   /\ (e.fam \notin {"cur2", "covered"} => e.t2 = "" /\ e.x2 = "")
+                                   /\ (e.fam \notin {"cur2", "covered", "lifecycle"} => e.t2 = "" /\ e.x2 = "")
 =============================================================================
